@@ -9,6 +9,7 @@ import Driver.C13
 import Driver.C08
 import Driver.C12
 import Driver.C05
+import Driver.C09
 open AITB
 
 def handleLine (line : String) : String :=
@@ -26,6 +27,7 @@ def handleLine (line : String) : String :=
   | "C08" :: rest => DrvC08.handle rest
   | "C12" :: rest => DrvC12.handle rest
   | "C05" :: rest => DrvC05.handle rest
+  | "C09" :: rest => DrvC09.handle rest
   | _ => "bad-op"
 
 partial def loop (h : IO.FS.Stream) (out : IO.FS.Stream) : IO Unit := do
